@@ -43,11 +43,11 @@ def ss_get_stake():
 
 def ss_votes():
     return dict(requires=[C("fits", "spec_staked_total(self@) <= u128::MAX", note="C09 envelope: total staked SYM fits in u128 (supply <= 2^127)")],
-                ensures=[C("sum", "res as int == spec_votes(self@, epoch, Some(key))", "C13", "C14")])
+                ensures=[C("sum", "res as int == spec_votes(self@, epoch, Some(key))", "C13", "C14", "C03")])
 
 def ss_total_votes():
     return dict(requires=[C("fits", "spec_staked_total(self@) <= u128::MAX")],
-                ensures=[C("sum", "res as int == spec_votes(self@, epoch, None)", "C13", "C14")])
+                ensures=[C("sum", "res as int == spec_votes(self@, epoch, None)", "C13", "C14", "C03")])
 
 def ss_unlock_old():
     return dict(ensures=[C("keeps", "forall|k: TxHash| #[trigger] final(self)@.contains_key(k) <==> (old(self)@.contains_key(k) && old(self)@[k].e_post_end >= epoch)", "C13"),
